@@ -90,6 +90,8 @@ pub fn esc(b: &[u8]) -> String {
 pub const CHARS: &[char] = &[
     'a', 'b', ' ', '-', 'h', 'é', 'а', 'о', '€', '佐', '佗', '😀', '\u{11fc1}', '\u{11fc6}', '\u{80}', '\u{7ff}', '\u{800}',
     '\u{d7ff}', '\u{e000}', '\u{ffff}', '\u{10000}', '\u{10ffff}',
+    // continuation octets that are Latin-1 white space when taken alone (0xA0, 0x85), and Unicode white space that is not ' '
+    'à', 'Р', 'х', '\u{a0}', '\u{3000}',
 ];
 
 /// all strings over `alpha` of length <= n
@@ -310,6 +312,21 @@ mod decoder {
         use embedded_cli::arguments::Arg;
         use embedded_cli::command::RawCommand;
         use embedded_cli::token::Tokens;
+        // submitted inside a command name and an argument: the tokens carry exactly what was typed
+        {
+            let line = format!("x{} {}y", c, c);
+            crate::note(&format!("U+{:04X} inside command name and argument: line {:?}", c as u32, line));
+            let mut owned = line.clone();
+            let got: Vec<Vec<u8>> = Tokens::new(owned.as_mut_str()).iter().map(|t| t.as_bytes().to_vec()).collect();
+            let want: Vec<Vec<u8>> = vec![format!("x{}", c).into_bytes(), format!("{}y", c).into_bytes()];
+            if got != want {
+                return Some(Cex {
+                    input: format!("U+{:04X} inside command name and argument: Tokens::new({:?})", c as u32, line),
+                    expected: format!("{:?}", want.iter().map(|t| esc(t)).collect::<Vec<_>>()),
+                    actual: format!("{:?}", got.iter().map(|t| esc(t)).collect::<Vec<_>>()),
+                });
+            }
+        }
         let line = format!("cmd -{}x", c);
         crate::note(&format!("short option U+{:04X}: line {:?}", c as u32, line));
         let mut owned = line.clone();
@@ -676,8 +693,8 @@ pub mod token_driver {
         None
     }
 
-    pub const ALPHA: &[char] = &[' ', '"', '\\', 'a', '-', 'h', 'é'];
-    pub const WORDS: &[&str] = &["help", "--help", "-h", "--", "-", "cmd", "-ab", "---x", "\"\"", "\"a b\"", "-é€", "--hélp", "-xh", "\"--\"", "sub"];
+    pub const ALPHA: &[char] = &[' ', '"', '\\', 'a', '-', 'h', 'é', 'à', 'х'];
+    pub const WORDS: &[&str] = &["help", "--help", "-h", "--", "-", "cmd", "-ab", "---x", "\"\"", "\"a b\"", "-é€", "--hélp", "-xh", "\"--\"", "sub", "-aàb", "--Режим", "à\u{a0}b", "х"];
 
     pub fn run(r: &mut Rng, iters: usize) -> Option<Cex> {
         for s in strings(ALPHA, 6) {
